@@ -9,7 +9,9 @@ for d in /tmp/seed-out/${ID}b/v*/; do
   cd $WT; git checkout -q -- .; git clean -fdq
   if ! git apply $d/patch.diff; then echo "$ID $k: does not apply"; continue; fi
   PK=$(git diff --name-only | xargs -n1 dirname | sort -u | sed 's|^|./|' | tr '\n' ' ')
-  OK=true; LOG=$(go build ./... 2>&1 && go vet $PK 2>&1 && go test -count=1 -skip '^TestManager$' $PK ./controller/ ./speaker/ ./internal/allocator/ ./internal/config/ 2>&1) || OK=false
+  # the frr package's TestMain needs Docker: its docker_test.go is replaced by a stub through a test overlay
+  echo "{\"Replace\": {\"$WT/internal/bgp/frr/docker_test.go\": \"/verif/tools/overlay/frr_docker_stub_test.go.txt\"}}" > /tmp/bw-ov-$ID.json
+  OK=true; LOG=$(go build ./... 2>&1 && go vet $PK 2>&1 && go test -count=1 -vet=off -overlay /tmp/bw-ov-$ID.json -skip '^TestManager$' $PK ./controller/ ./speaker/ ./internal/allocator/ ./internal/config/ 2>&1) || OK=false
   DST=/verif/benign/$ID-b${k#v}; 
   if $OK; then
     mkdir -p $DST; cp $d/patch.diff $DST/; 
